@@ -234,7 +234,7 @@ func waitFor(cond func() bool, d time.Duration, conns ...*wire.Conn) bool {
 
 func main() {
 	c := vk.Init("C04")
-	c.Rule("scenario i: 1..200 well-formed messages (any MsgType, 30..70000 bytes incl. single fields of 4000..70000 bytes, values containing '10=', fields 110/210/1010/9910) are concatenated and cut into read chunks by one of 13 strategies (all-in-one, one byte per read, random, message-aligned, coalescing, and a boundary at every offset 0..7 of every message's trailing CheckSum field), with feed timing {none, Gosched, 1 ms pauses}; delivered to (a) an Initiator with a recording handler that asserts one ServeIncoming at a time, (b) an Initiator with DefaultHandler + incoming callbacks, (c) an Acceptor with 1..8 simultaneous connections (arriving one at a time or all back to back before any handler exists) through the real handler factory, each message tagged (connection, counter); buffer sizes {0,1,10}. Outbound: 1..4 goroutines hand unique messages to Send/SendRaw; the peer-side capture is split by the reference splitter. Oracle: per connection delivered == sent (bytes, order, multiplicity), nothing from another connection, outbound stream == hand-off order (order seen by an outgoing ALL-handler under the handler's own lock; per-goroutine order for SendRaw). distinct = hash(partition signature, messages); non-trivial = >=2 messages or a boundary inside a CheckSum field")
+	c.Rule("scenario i: 1..200 well-formed messages (any MsgType, 30..70000 bytes incl. single fields of 4000..70000 bytes, values containing '10=', fields 110/210/1010/9910) are concatenated and cut into read chunks by one of 13 strategies (all-in-one, one byte per read, random, message-aligned, coalescing, and a boundary at every offset 0..7 of every message's trailing CheckSum field), with feed timing {none, Gosched, 1 ms pauses}; delivered to (a) an Initiator with a recording handler that asserts one ServeIncoming at a time, (b) an Initiator with DefaultHandler + incoming callbacks, (c) an Acceptor with 1..8 simultaneous connections (arriving one at a time or all back to back before any handler exists) through the real handler factory, each message tagged (connection, counter); buffer sizes {0,1,10}. Outbound: 1..4 goroutines hand unique messages to Send/SendRaw; the peer-side capture is split by the reference splitter. Oracle: per connection delivered == sent (bytes, order, multiplicity), nothing from another connection, outbound stream == hand-off order (order seen by an outgoing ALL-handler under the handler's own lock; per-goroutine order for SendRaw). Write fault: 2..11 messages handed to SendRaw in order while one write takes only part of its message (cut anywhere, or inside the CheckSum field) and runs into a 30 ms write deadline, later writes being accepted: the captured stream must stay a prefix of the hand-offs. distinct = hash(partition signature, messages); non-trivial = >=2 messages or a boundary inside a CheckSum field")
 	n := c.Pick(3000, 60000)
 	vk.Parallel(n, runtime.NumCPU(), func(i int) {
 		r := c.Rand("c04", int64(i))
@@ -535,7 +535,92 @@ func main() {
 			c.Sample(desc)
 		}
 	})
+	// outbound stream under a write fault: the peer stops reading in the middle of one message (the write is cut short
+	// and runs into its deadline) and then reads again. Whatever the library does about the fault, the bytes the peer
+	// receives must remain a prefix of the handed-off messages in hand-off order.
+	nf := c.Pick(60, 1500)
+	vk.Parallel(nf, runtime.NumCPU(), func(i int) {
+		r := c.Rand("c04-writefault", int64(i))
+		buf := []int{0, 1, 10}[r.Intn(3)]
+		nmsg := 2 + r.Intn(10)
+		var msgs [][]byte
+		var want []byte
+		for k := 0; k < nmsg; k++ {
+			m := randMsg(r, fmt.Sprintf("wf-%d", k))
+			msgs = append(msgs, m)
+			want = append(want, m...)
+		}
+		at := 1 + r.Intn(nmsg)
+		cut := r.Intn(len(msgs[at-1]))
+		if r.Intn(4) == 0 {
+			cut = len(msgs[at-1]) - 1 - r.Intn(7) // inside the trailing CheckSum field
+			if cut < 0 {
+				cut = 0
+			}
+		}
+		desc := fmt.Sprintf("write-fault buf=%d messages=%d: write #%d takes %d of %d bytes and times out, later writes are accepted", buf, nmsg, at, cut, len(msgs[at-1]))
+		replay := map[string]interface{}{"scenario": desc, "index": i, "seed": c.Seed}
+		conn := wire.NewConn("c04wf", false)
+		conn.PartialStallAt(at, cut)
+		h := simplefixgo.NewInitiatorHandler(context.Background(), "35", buf)
+		ini := simplefixgo.NewInitiator(conn, h, buf, 30*time.Millisecond)
+		done := make(chan struct{})
+		go func() { ini.Serve(); close(done) }()
+		sent := make(chan struct{})
+		go func() {
+			defer close(sent)
+			for _, m := range msgs {
+				if closed, _ := conn.Closed(); closed {
+					return
+				}
+				h.SendRaw(m)
+			}
+		}()
+		select {
+		case <-sent:
+		case <-time.After(5 * time.Second):
+		}
+		// let the fault play out: the deadline (30 ms), possible retries, the writes that follow
+		settle := time.Now().Add(3 * time.Second)
+		last := -1
+		for time.Now().Before(settle) {
+			time.Sleep(60 * time.Millisecond)
+			n := len(conn.Written())
+			closed, _ := conn.Closed()
+			if n == last && (closed || n >= len(want)) {
+				break
+			}
+			last = n
+		}
+		got := conn.Written()
+		c.Eval(vk.Hash64([]byte(desc)), true)
+		c.Count("write_fault_scenarios", 1)
+		if closed, _ := conn.Closed(); closed {
+			c.Count("write_fault_scenarios_connection_closed_after_fault", 1)
+		}
+		if len(got) > len(want) || !bytes.Equal(got, want[:len(got)]) {
+			d := 0
+			for d < len(got) && d < len(want) && got[d] == want[d] {
+				d++
+			}
+			c.Violate("C04/outbound/stream-is-not-a-prefix-of-the-hand-offs/after-write-timeout", fmt.Sprintf("%s: the outbound stream departs from the handed-off messages at byte %d (stream %d bytes, hand-offs %d bytes): ...%s", desc, d, len(got), len(want), vk.Trunc(fixref.Pretty(got[max0(d-40):]), 200)), replay)
+		}
+		ini.Close()
+		h.Stop()
+		conn.Close()
+		select {
+		case <-done:
+		case <-time.After(5 * time.Second):
+		}
+	})
 	c.Finish()
+}
+
+func max0(x int) int {
+	if x < 0 {
+		return 0
+	}
+	return x
 }
 
 func totalLen(m [][][]byte) int {
